@@ -71,7 +71,9 @@ void h_connect(void)
 	else { want_bind = NULL; c = network_connect_timeo(SAS, &tv, ucb, &UC); }
 	CHECK(u_calls == 0, "no callback from inside the submission");
 	if (c == NULL) {
+#ifndef MMF
 		CHECK(reg_refuse, "submission fails only if the event layer refuses a registration");
+#endif
 		CHECK(!net_reg && !tim_reg && !imm_reg, "a refused submission leaves nothing registered");
 		for (int i = 0; i < NADDR; i++) CHECK(!fd_open[i] || fd_closed[i], "and no descriptor open");
 		CHECK(!close_bad && !order_bad, "descriptors closed once, addresses in order");
